@@ -109,6 +109,9 @@ Inductive case :=
 | CAlias (items : table) (add_rot : bool) (ns : nat) (edits : table) (obs_table : table) (packed : list N)
 (* user table with arbitrary integer states and an explicit list of 3x3 blocks *)
 | CUserQ (items : table) (add_rot : bool) (obs_table : table) (queries : list (list (list Z) * res Z))
+(* random sample of keys through a loop's __call__ with the 3x3 block in another dtype (uint8, int8, int32,
+   float64, bool): answers packed as in CStream, at most 729 per numeral *)
+| CSample (w : loop) (keys : list key) (packed : list N)
 (* replay of a witness of a failed finite theorem: the answers of the real __call__ on the key and its three
    successive quarter-turns; checked against the PROPERTY (not against the tables' model) *)
 | CWitness (w : loop) (k : key) (obs4 : list Z).
@@ -125,6 +128,7 @@ Definition model_codes (c : case) : list Z :=
   | CAlias items ar ns _ _ _ => map (ctrbl_code (ctrbl_new items ar)) (all_keys (states ns))
   | CUserQ items ar _ qs =>
       map (fun q => ctrbl_code (ctrbl_new items ar) (key_of_nbhd (fst q))) qs
+  | CSample w keys _ => map (loop_code w) keys
   | CWitness w k _ => [loop_code w k; loop_code w (rot k); loop_code w (rot (rot k)); loop_code w (rot (rot (rot k)))]
   end.
 
@@ -144,6 +148,7 @@ Definition witness_ok (w : loop) (k : key) (obs4 : list Z) : bool :=
       match w with
       | LLangton => true                                                   (* nothing else is claimed *)
       | _ => (a <=? 8) &&                                                  (* total, in range *)
+             (let '(cc, _, _, _, _) := k in if cc =? 8 then a =? 0 else true) &&   (* 8 always becomes 0 *)
              match dict_get k (loop_table w) with
              | Some _ => true
              | None => a =? spec_of w k                                    (* default rules *)
@@ -177,5 +182,6 @@ Definition check_case (c : case) : bool :=
       table_eqb (ctrbl_new items ar) obs_table &&
       (* exact values and exact exception class (the property names ValueError) *)
       list_eqb (res_eqb Z.eqb) (map (fun q => CTRBLRule_call (ctrbl_new items ar) (fst q)) qs) (map snd qs)
+  | CSample _ _ packed => streams_ok (S (length packed)) (model_codes c) packed
   | CWitness w k obs4 => witness_ok w k obs4
   end.
